@@ -87,6 +87,16 @@ class Formatted:
     __slots__ = ("case", "text", "edits", "formatted", "parse", "parse0", "diags0", "diags1", "edits2", "formatted2", "panic")
 
 
+def unsplit(text):
+    """An edit that splits a surrogate pair (reported as such by lspedit.validate_edits) leaves half a character behind:
+    the halves are replaced by U+FFFD so that the text can still be sent on."""
+    try:
+        text.encode("utf-8")
+        return text
+    except UnicodeEncodeError:
+        return text.encode("utf-16-le", "surrogatepass").decode("utf-16-le", "replace")
+
+
 def run_format(run, cases):
     """-> list of Formatted (None for cases that cannot be carried)"""
     hcs = []
@@ -111,7 +121,7 @@ def run_format(run, cases):
             continue
         f.diags0 = r["steps"][0].get("diags") or []
         f.edits = r["steps"][1].get("reply") or []
-        f.formatted = lspedit.apply_edits(f.text, f.edits)
+        f.formatted = unsplit(lspedit.apply_edits(f.text, f.edits))
         hc2 = dict(hc)
         files = dict(hc["files"])
         if "doc.journal" in files:
@@ -132,7 +142,7 @@ def run_format(run, cases):
             continue
         f.diags1 = r["steps"][0].get("diags") or []
         f.edits2 = r["steps"][1].get("reply") or []
-        f.formatted2 = lspedit.apply_edits(f.formatted, f.edits2)
+        f.formatted2 = unsplit(lspedit.apply_edits(f.formatted, f.edits2))
     return outs
 
 
